@@ -28,6 +28,7 @@ import (
 	"errors"
 	"fmt"
 	"os"
+	"regexp"
 	"runtime"
 	"runtime/debug"
 	"strconv"
@@ -153,6 +154,8 @@ func c15Snapshot(in interface{}) string {
 	}
 }
 
+var c15FirstInt = regexp.MustCompile(`-?[0-9]+`)
+
 func c15Errs(err error) string {
 	if err == nil {
 		return "R 0"
@@ -164,7 +167,9 @@ func c15Errs(err error) string {
 		var k int64
 		if n, _ := fmt.Sscanf(l, "c15 add %d failed", &k); n == 1 && l == fmt.Sprintf("c15 add %d failed", k) {
 			fmt.Fprintf(&sb, " A:%d", k)
-		} else if n, _ := fmt.Sscanf(l, "value %d is too large to be recorded", &k); n == 1 {
+		} else if m := c15FirstInt.FindString(l); m != "" && !strings.HasPrefix(l, "c15 add") {
+			// a histogram's rejection of a value: identified by the value it names, whatever the wording
+			fmt.Sscanf(m, "%d", &k)
 			fmt.Fprintf(&sb, " R:%d", k)
 		} else {
 			sb.WriteString(" U")
